@@ -365,8 +365,17 @@ func (r *Resource[T]) Router() *Router[T] { return r.router }
 
 func (resp *headResponse) Write(bs []byte) (int, error) {
 	l := len(bs)
-	resp.size += l
+	h := resp.Header()
 
-	resp.Header().Set(header.ContentLength, strconv.Itoa(resp.size))
+	// GET 请求在首次输出内容时，会由 net/http 根据内容推断未指定的 Content-Type，HEAD 需要保持一致。
+	if resp.size == 0 && l > 0 {
+		_, hasType := h[header.ContentType]
+		if !hasType && h.Get(header.ContentEncoding) == "" && h.Get(header.TransferEncoding) == "" {
+			h.Set(header.ContentType, http.DetectContentType(bs))
+		}
+	}
+
+	resp.size += l
+	h.Set(header.ContentLength, strconv.Itoa(resp.size))
 	return l, nil
 }
